@@ -162,7 +162,7 @@ class Chunk:
             if k not in one_arg_xforms and k not in two_arg_xforms:
                 # Unsupported SGR code
                 continue
-            elif v is False:
+            elif not v:
                 continue
             elif k in one_arg_xforms:
                 s = one_arg_xforms[k](s)
